@@ -515,12 +515,73 @@ def fingerprint(module, node):
 
 
 class Obligation:
-    def __init__(self, name, pc, goal, path, meta=None):
+    def __init__(self, name, pc, goal, path, meta=None, witnesses=None):
         self.name = name
         self.pc = list(pc)
         self.goal = goal
         self.path = path
         self.meta = meta or {}
+        self.witnesses = witnesses or {}
+
+
+def snapshot(v):
+    if isinstance(v, SSeq):
+        return v.copy()
+    if isinstance(v, Obj):
+        o = Obj(v.cls, {k: snapshot(x) for k, x in v.f.items()}, tag=v.tag)
+        return o
+    if isinstance(v, list):
+        return [snapshot(x) for x in v]
+    if isinstance(v, tuple):
+        return tuple(snapshot(x) for x in v)
+    if isinstance(v, dict):
+        return {k: snapshot(x) for k, x in v.items()}
+    return v
+
+
+def pyval(m, v, seq_cap=12):
+    """Evaluate a (possibly structured) symbolic value in model m -> plain python data."""
+    if isinstance(v, SSeq):
+        n = pyval(m, v.length)
+        n_ = max(0, min(int(n), seq_cap)) if isinstance(n, int) else 0
+        if v.fields is None:
+            return {"len": n, "items": [pyval(m, v.get(z3.IntVal(i))) for i in range(n_)]}
+        return {"len": n, "items": [{f: pyval(m, v.field(f, z3.IntVal(i))) for f in v.fields} for i in range(n_)]}
+    if isinstance(v, Obj):
+        return {"__cls__": v.clsname, **{k: pyval(m, x) for k, x in v.f.items()}}
+    if isinstance(v, (list, tuple)):
+        return [pyval(m, x) for x in v]
+    if isinstance(v, dict):
+        return {str(k): pyval(m, x) for k, x in v.items()}
+    if not is_z3(v):
+        return v if isinstance(v, (int, float, str, bool, type(None))) else repr(v)
+    r = m.eval(v, model_completion=True)
+    if z3.is_int_value(r):
+        return r.as_long()
+    if z3.is_true(r):
+        return True
+    if z3.is_false(r):
+        return False
+    if z3.is_rational_value(r):
+        return {"real": str(r), "float": r.numerator_as_long() / r.denominator_as_long()}
+    if isinstance(r, z3.FPNumRef):
+        if r.isNaN():
+            return {"fp32": "nan"}
+        if r.isInf():
+            return {"fp32": "-inf" if r.isNegative() else "inf"}
+        if r.isZero():
+            return {"fp32": "-0.0" if r.isNegative() else "0.0"}
+        try:
+            import struct
+
+            sgn = 1 if r.isNegative() else 0
+            sig = r.significand_as_long()
+            ex = r.exponent_as_long(biased=True)
+            bits = (sgn << 31) | (ex << 23) | sig
+            return {"fp32": repr(struct.unpack("<f", struct.pack("<I", bits))[0]), "bits": bits}
+        except Exception:
+            return {"fp32": str(r)}
+    return str(r)
 
 
 class Ctx:
@@ -537,6 +598,11 @@ class Ctx:
         self.call_depth = 0
         self.mono = {}  # monotone uninterpreted applications seen: fname -> [(arg, res)]
         self.notes = []
+        self.witnesses = {}
+
+    def witness(self, name, value):
+        """remember a value whose model evaluation is reported when an obligation is refuted"""
+        self.witnesses[name] = value
 
     # -- naming
     def fresh_name(self, base):
@@ -637,7 +703,7 @@ class Ctx:
     def oblige(self, name, goal, **meta):
         if isinstance(goal, bool):
             goal = z3.BoolVal(goal)
-        self.ex.add_obligation(Obligation(name, self.pc, goal, list(self.trace), meta))
+        self.ex.add_obligation(Obligation(name, self.pc, goal, list(self.trace), meta, {k: snapshot(v) for k, v in self.witnesses.items()}))
 
     def cover(self, name, cond=True):
         """Reachability witness: pc /\\ cond must be satisfiable on at least one path."""
